@@ -251,12 +251,22 @@ class Refresher(Module):
             # ZQCS Timer ---------------------------------------------------------------------------
             zqcs_timer = RefreshTimer(int(clk_freq/zqcs_freq))
             self.submodules.zqcs_timer = zqcs_timer
-            self.comb += wants_zqcs.eq(zqcs_timer.done)
+            # The timer's done is a single-cycle pulse: keep the request until the ZQCS is actually started
+            # (it can only be started at the end of a refresh sequence).
+            zqcs_pending = Signal()
+            self.comb += wants_zqcs.eq(zqcs_timer.done | zqcs_pending)
 
             # ZQCS Executer ------------------------------------------------------------------------
             zqcs_executer = ZQCSExecuter(cmd, settings.timing.tRP, settings.timing.tZQCS)
             self.submodules.zqs_executer = zqcs_executer
             self.comb += zqcs_timer.wait.eq(~zqcs_executer.done)
+            self.sync += [
+                If(zqcs_executer.start,
+                    zqcs_pending.eq(0)
+                ).Elif(zqcs_timer.done,
+                    zqcs_pending.eq(1)
+                )
+            ]
 
         # Refresh FSM ------------------------------------------------------------------------------
         self.submodules.fsm = fsm = FSM()
